@@ -22,6 +22,9 @@ import I3.Lemmas.GoBridgeBabyjub
 import I3.Lemmas.GoBridgePoseidon
 import I3.Lemmas.GoBridgeMimc7
 import I3.Lemmas.EdDSA
+import I3.Props.C02
+import I3.Props.C03
+import I3.Props.C14
 import I3.Props.C15
 import I3.Props.C20
 
@@ -330,11 +333,44 @@ theorem mimc7_Hash_eq_hashToGo (l : List Int) :
   rw [mimc7_Hash_none_eq]
   cases Inst.hMimc7 l <;> rfl
 
+/-! ## the model unfolded once (all parameters are VARIABLES here: the kernel checks these `rfl`s on
+stuck terms; unfolding `sign` / `verify` with `simp` inside a goal about `Inst.hPoseidon …` makes it
+evaluate the hash on open terms) -/
+
+/-- the model's `sign`: one `match` on the hash -/
+theorem sign_unfold (blake : Bytes → Bytes) (H : List Int → Option Nat) (key : Bytes) (msg : Int) :
+    sign K blake H key msg =
+      match H [(mul K ((leToNat (blake ((blake key).drop 32 ++ bigIntLEBytes msg)) : Nat) %
+            (K.subOrder : Int)) K.b8).1,
+          (mul K ((leToNat (blake ((blake key).drop 32 ++ bigIntLEBytes msg)) : Nat) %
+            (K.subOrder : Int)) K.b8).2,
+          (publicKey K blake key).1, (publicKey K blake key).2, msg] with
+      | none => .error .hash
+      | some hm => .ok ⟨mul K ((leToNat (blake ((blake key).drop 32 ++ bigIntLEBytes msg)) : Nat) %
+            (K.subOrder : Int)) K.b8,
+          (((leToNat (blake ((blake key).drop 32 ++ bigIntLEBytes msg)) : Nat) % (K.subOrder : Int)) +
+            (hm : Int) * ((skToBigInt blake key * 8 : Nat) : Int)) % (K.subOrder : Int)⟩ := by
+  rw [← Int.natCast_mod]
+  rfl
+
+/-- the model's `verify`: the range check, one `match` on the hash, one comparison -/
+theorem verify_unfold (H : List Int → Option Nat) (pk : APoint) (msg : Int) (r8 : APoint) (S : Int) :
+    verify K H pk msg ⟨r8, S⟩ =
+      if S < 0 ∨ S ≥ (K.subOrder : Int) then .error .sOutOfRange
+      else match H [r8.1, r8.2, pk.1, pk.2, msg] with
+        | none => .error .hash
+        | some hm =>
+          if ((mul K S K.b8).1 == (affine K (addProj K (projective K r8)
+                (projective K (mul K (8 * (hm : Int)) pk)))).1 &&
+              (mul K S K.b8).2 == (affine K (addProj K (projective K r8)
+                (projective K (mul K (8 * (hm : Int)) pk)))).2) then .ok ()
+          else .error .verifyFailed := rfl
+
 /-! ## signing -/
 
 /-- the Go result `(*Signature, error)` of `SignPoseidon` / `SignMimc7`: `.ok sig ↦ (sig, nil)`;
-the only error the model can return is `.hash` (I3.Props.C02.sign_error), and Go returns nil together
-with the error of the hash -/
+the only error the model can return is `.hash` (`I3.Props.C02.sign_error`), and Go then returns nil
+together with the error of the hash, "inputs values not inside Finite Field" -/
 def signToGo : Except Model.EdDSA.Err Sig → ((Int × Int) × Int) × Option String
   | .ok sig => (ofSig sig, none)
   | .error _ => (default, some "inputs values not inside Finite Field")
@@ -342,10 +378,6 @@ def signToGo : Except Model.EdDSA.Err Sig → ((Int × Int) × Int) × Option St
 theorem mod_subOrder (x : Int) :
     Go.big.mod x Go.Ext.babyjub_SubOrder = x % (K.subOrder : Int) := by
   rw [babyjub_SubOrder_eq]; rfl
-
-theorem mod_subOrder_natCast (n : Nat) :
-    Go.big.mod (n : Int) Go.Ext.babyjub_SubOrder = ((n % K.subOrder : Nat) : Int) := by
-  rw [mod_subOrder]; norm_cast
 
 theorem lsh_three_natCast (s : Nat) : Go.big.lsh (s : Int) 3 = ((s * 8 : Nat) : Int) := by
   unfold Go.big.lsh; norm_cast
@@ -356,23 +388,581 @@ theorem babyjub_PrivateKey_SignPoseidon_eq (k : Bytes) (msg : Int) :
       signToGo (sign K Inst.blake Inst.hPoseidon k msg) := by
   go_delta babyjub_PrivateKey_SignPoseidon
   have hle : (bigIntLEBytes msg).length = 32 := Lemmas.Bytes.natToLE_length 32 _
-  -- the hash stays an opaque function until its argument is a closed term of the context: the
-  -- `match` on its result is reduced by structure eta, and the kernel must find it stuck at once
-  generalize hph : poseidon_Hash = ph
-  -- pass 1 (`-iota`): every destructured call becomes a literal pair; pass 2: the `match`es reduce
+  -- pass 1 (`-iota`, rewriting only): every destructured call becomes a literal pair
   simp -iota only [blake512_eq, utils_BigIntLEBytes_eq,
     copyInto_replicate_full (default : UInt8) 32 _ hle, slice_32_len, utils_SetBigIntFromLEBytes_eq,
     babyjub_Point_Mul_eq, babyjub_B8_eq, babyjub_PublicKey_Point_eq, babyjub_PrivateKey_Public_eq,
-    babyjub_PrivKeyScalar_BigInt_eq, babyjub_PrivateKey_Scalar_eq, lsh_three_natCast, mod_subOrder]
-  simp only []
-  subst hph
-  simp only [← Int.natCast_mod, poseidon_Hash_five, sign]
-  generalize Inst.hPoseidon _ = o
-  generalize ((leToNat (Inst.blake ((Inst.blake k).drop 32 ++ bigIntLEBytes msg)) % K.subOrder : Nat)
-    : Int) = r
-  generalize mul K r K.b8 = R8
+    babyjub_PrivKeyScalar_BigInt_eq, babyjub_PrivateKey_Scalar_eq, lsh_three_natCast, mod_subOrder,
+    poseidon_Hash_five]
+  rw [sign_unfold]
+  -- pass 2: the `match`es are reduced in an auxiliary lemma where all the expensive subterms are
+  -- VARIABLES (a `generalize` alone is β-reduced away in the final proof term)
+  generalize ((leToNat (Inst.blake ((Inst.blake k).drop 32 ++ bigIntLEBytes msg)) : Nat) : Int) = a
+  generalize publicKey K Inst.blake k = A
   generalize ((skToBigInt Inst.blake k * 8 : Nat) : Int) = s8
+  generalize mul K = mulK
+  generalize Inst.hPoseidon = H
   generalize (K.subOrder : Int) = l
-  cases o <;> rfl
+  generalize K.b8 = b8
+  as_aux_lemma =>
+    simp only []
+    generalize H _ = o
+    cases o <;> rfl
+
+/-- **`k.SignMimc7(msg)`** for a key of ANY length and EVERY integer message -/
+theorem babyjub_PrivateKey_SignMimc7_eq (k : Bytes) (msg : Int) :
+    babyjub_PrivateKey_SignMimc7 k msg =
+      signToGo (sign K Inst.blake Inst.hMimc7 k msg) := by
+  go_delta babyjub_PrivateKey_SignMimc7
+  have hle : (bigIntLEBytes msg).length = 32 := Lemmas.Bytes.natToLE_length 32 _
+  simp -iota only [blake512_eq, utils_BigIntLEBytes_eq,
+    copyInto_replicate_full (default : UInt8) 32 _ hle, slice_32_len, utils_SetBigIntFromLEBytes_eq,
+    babyjub_Point_Mul_eq, babyjub_B8_eq, babyjub_PublicKey_Point_eq, babyjub_PrivateKey_Public_eq,
+    babyjub_PrivKeyScalar_BigInt_eq, babyjub_PrivateKey_Scalar_eq, lsh_three_natCast, mod_subOrder,
+    mimc7_Hash_eq_hashToGo]
+  rw [sign_unfold]
+  generalize ((leToNat (Inst.blake ((Inst.blake k).drop 32 ++ bigIntLEBytes msg)) : Nat) : Int) = a
+  generalize publicKey K Inst.blake k = A
+  generalize ((skToBigInt Inst.blake k * 8 : Nat) : Int) = s8
+  generalize mul K = mulK
+  generalize Inst.hMimc7 = H
+  generalize (K.subOrder : Int) = l
+  generalize K.b8 = b8
+  as_aux_lemma =>
+    simp only []
+    generalize H _ = o
+    cases o <;> rfl
+
+/-! ## verification -/
+
+/-- the Go `error` returned by `VerifyPoseidon` / `VerifyMimc7` (`failMsg` = the hash-specific
+`ErrVerify…Failed`): the model's `verify` returns `.ok ()` or one of the three errors `.sOutOfRange`,
+`.hash`, `.verifyFailed` (`verify_cases`) -/
+def verifyToGo (failMsg : String) : Except Model.EdDSA.Err Unit → Option String
+  | .ok _ => none
+  | .error .sOutOfRange => some "ErrSOutOfRange"
+  | .error .verifyFailed => some failMsg
+  | .error _ => some "inputs values not inside Finite Field"
+
+theorem sign_lt_zero (a : Int) : decide (Go.big.sign a < 0) = decide (a < 0) := by
+  unfold Go.big.sign
+  split_ifs <;> simp_all
+
+/-- **`pk.VerifyPoseidon(msg, sig)`** for EVERY public key, message and signature (arbitrary
+integers, on the curve or not) -/
+theorem babyjub_PublicKey_VerifyPoseidon_eq (pk : Int × Int) (msg : Int) (sig : (Int × Int) × Int) :
+    babyjub_PublicKey_VerifyPoseidon pk msg sig =
+      verifyToGo "ErrVerifyPoseidonFailed" (verify K Inst.hPoseidon pk msg (toSig sig)) := by
+  obtain ⟨r8, S⟩ := sig
+  go_delta babyjub_PublicKey_VerifyPoseidon
+  simp -iota only [sign_lt_zero, cmp_ge_zero, babyjub_SubOrder_eq, poseidon_Hash_five,
+    babyjub_Point_Mul_eq, babyjub_B8_eq, babyjub_PublicKey_Point_eq, babyjub_Point_Projective_eq,
+    babyjub_PointProjective_Add_eq, babyjub_PointProjective_Affine_eq, cmp_eq_zero, toSig]
+  rw [verify_unfold]
+  generalize mul K = mulK
+  generalize affine K = aff
+  generalize addProj K = addP
+  generalize projective K = proj
+  generalize Inst.hPoseidon = H
+  generalize (K.subOrder : Int) = l
+  generalize K.b8 = b8
+  as_aux_lemma =>
+    by_cases hr : S < 0 ∨ S ≥ l
+    · have hb : (decide (S < 0) || decide (l ≤ S)) = true := by
+        simpa only [Bool.or_eq_true, decide_eq_true_eq, ge_iff_le] using hr
+      rw [if_pos hr, if_pos hb]; rfl
+    · have hb : ¬ (decide (S < 0) || decide (l ≤ S)) = true := by
+        simpa only [Bool.or_eq_true, decide_eq_true_eq, ge_iff_le] using hr
+      rw [if_neg hr, if_neg hb]
+      generalize H _ = o
+      cases o with
+      | none => rfl
+      | some hm => rw [apply_ite (verifyToGo _)]; rfl
+
+/-- **`pk.VerifyMimc7(msg, sig)`** for EVERY public key, message and signature -/
+theorem babyjub_PublicKey_VerifyMimc7_eq (pk : Int × Int) (msg : Int) (sig : (Int × Int) × Int) :
+    babyjub_PublicKey_VerifyMimc7 pk msg sig =
+      verifyToGo "ErrVerifyMimc7Failed" (verify K Inst.hMimc7 pk msg (toSig sig)) := by
+  obtain ⟨r8, S⟩ := sig
+  go_delta babyjub_PublicKey_VerifyMimc7
+  simp -iota only [sign_lt_zero, cmp_ge_zero, babyjub_SubOrder_eq, mimc7_Hash_eq_hashToGo,
+    babyjub_Point_Mul_eq, babyjub_B8_eq, babyjub_PublicKey_Point_eq, babyjub_Point_Projective_eq,
+    babyjub_PointProjective_Add_eq, babyjub_PointProjective_Affine_eq, cmp_eq_zero, toSig]
+  rw [verify_unfold]
+  generalize mul K = mulK
+  generalize affine K = aff
+  generalize addProj K = addP
+  generalize projective K = proj
+  generalize Inst.hMimc7 = H
+  generalize (K.subOrder : Int) = l
+  generalize K.b8 = b8
+  as_aux_lemma =>
+    by_cases hr : S < 0 ∨ S ≥ l
+    · have hb : (decide (S < 0) || decide (l ≤ S)) = true := by
+        simpa only [Bool.or_eq_true, decide_eq_true_eq, ge_iff_le] using hr
+      rw [if_pos hr, if_pos hb]; rfl
+    · have hb : ¬ (decide (S < 0) || decide (l ≤ S)) = true := by
+        simpa only [Bool.or_eq_true, decide_eq_true_eq, ge_iff_le] using hr
+      rw [if_neg hr, if_neg hb]
+      generalize H _ = o
+      cases o with
+      | none => rfl
+      | some hm => rw [apply_ite (verifyToGo _)]; rfl
+
+/-! ## reading results back -/
+
+/-- the message of the hash error -/
+abbrev hashErrMsg : String := "inputs values not inside Finite Field"
+
+theorem hashToGo_some_iff (o : Option Nat) (h : Nat) : hashToGo o = ((h : Int), none) ↔ o = some h := by
+  cases o <;> simp [hashToGo]
+
+theorem hashToGo_ok_iff (o : Option Nat) (v : Int) :
+    hashToGo o = (v, none) ↔ ∃ h : Nat, o = some h ∧ v = (h : Int) := by
+  cases o with
+  | none => simp [hashToGo]
+  | some x =>
+    simp only [hashToGo, Prod.mk.injEq, and_true, Option.some.injEq, exists_eq_left']
+    exact eq_comm
+
+theorem hashToGo_noerr_iff (o : Option Nat) : (hashToGo o).2 = none ↔ ∃ h, o = some h := by
+  cases o <;> simp [hashToGo]
+
+theorem hashToGo_error_iff (o : Option Nat) : hashToGo o = (0, some hashErrMsg) ↔ o = none := by
+  cases o <;> simp [hashToGo]
+
+/-- the only error of the model's `sign` is the hash error -/
+theorem sign_error_hash (blake : Bytes → Bytes) (H : List Int → Option Nat) (key : Bytes) (msg : Int)
+    (e : Model.EdDSA.Err) (h : sign K blake H key msg = .error e) : e = .hash := by
+  rw [sign_unfold] at h
+  split at h
+  · exact (Except.error.inj h).symm
+  · cases h
+
+theorem signToGo_ok_iff (r : Except Model.EdDSA.Err Sig) (sig : (Int × Int) × Int) :
+    signToGo r = (sig, none) ↔ r = .ok (toSig sig) := by
+  cases r with
+  | error e => simp [signToGo]
+  | ok s =>
+    simp only [signToGo, Prod.mk.injEq, and_true, Except.ok.injEq]
+    constructor
+    · rintro rfl; rfl
+    · rintro rfl; rfl
+
+theorem signToGo_error_iff (r : Except Model.EdDSA.Err Sig) :
+    signToGo r = (default, some hashErrMsg) ↔ ∃ e, r = .error e := by
+  cases r <;> simp [signToGo]
+
+theorem signToGo_noerr_iff (r : Except Model.EdDSA.Err Sig) :
+    (signToGo r).2 = none ↔ ∃ sig, r = .ok sig := by
+  cases r <;> simp [signToGo]
+
+/-- `SignPoseidon` returns `(sig, nil)` iff the model signs with `sig` -/
+theorem babyjub_PrivateKey_SignPoseidon_ok_iff (k : Bytes) (msg : Int) (sig : (Int × Int) × Int) :
+    babyjub_PrivateKey_SignPoseidon k msg = (sig, none) ↔
+      sign K Inst.blake Inst.hPoseidon k msg = .ok (toSig sig) := by
+  rw [babyjub_PrivateKey_SignPoseidon_eq, signToGo_ok_iff]
+
+/-- `SignPoseidon` returns `(nil, "inputs values not inside Finite Field")` iff the model reports the
+hash error — the only error there is -/
+theorem babyjub_PrivateKey_SignPoseidon_error_iff (k : Bytes) (msg : Int) :
+    babyjub_PrivateKey_SignPoseidon k msg = (default, some hashErrMsg) ↔
+      sign K Inst.blake Inst.hPoseidon k msg = .error .hash := by
+  rw [babyjub_PrivateKey_SignPoseidon_eq, signToGo_error_iff]
+  exact ⟨fun ⟨e, he⟩ => by rw [he, sign_error_hash _ _ _ _ e he], fun h => ⟨_, h⟩⟩
+
+theorem babyjub_PrivateKey_SignMimc7_ok_iff (k : Bytes) (msg : Int) (sig : (Int × Int) × Int) :
+    babyjub_PrivateKey_SignMimc7 k msg = (sig, none) ↔
+      sign K Inst.blake Inst.hMimc7 k msg = .ok (toSig sig) := by
+  rw [babyjub_PrivateKey_SignMimc7_eq, signToGo_ok_iff]
+
+theorem babyjub_PrivateKey_SignMimc7_error_iff (k : Bytes) (msg : Int) :
+    babyjub_PrivateKey_SignMimc7 k msg = (default, some hashErrMsg) ↔
+      sign K Inst.blake Inst.hMimc7 k msg = .error .hash := by
+  rw [babyjub_PrivateKey_SignMimc7_eq, signToGo_error_iff]
+  exact ⟨fun ⟨e, he⟩ => by rw [he, sign_error_hash _ _ _ _ e he], fun h => ⟨_, h⟩⟩
+
+/-- the four possible outcomes of the model's `verify` -/
+theorem verify_cases (H : List Int → Option Nat) (pk : APoint) (msg : Int) (sig : Sig) :
+    verify K H pk msg sig = .ok () ∨ verify K H pk msg sig = .error .sOutOfRange ∨
+      verify K H pk msg sig = .error .hash ∨ verify K H pk msg sig = .error .verifyFailed := by
+  obtain ⟨r8, S⟩ := sig
+  rw [verify_unfold]
+  split_ifs
+  · exact Or.inr (Or.inl rfl)
+  · split
+    · exact Or.inr (Or.inr (Or.inl rfl))
+    · split_ifs
+      · exact Or.inl rfl
+      · exact Or.inr (Or.inr (Or.inr rfl))
+
+/-- each Go error of `Verify*` corresponds to exactly one outcome of the model -/
+theorem verifyToGo_iff (fm : String) (h1 : fm ≠ "ErrSOutOfRange") (h2 : fm ≠ hashErrMsg)
+    (r : Except Model.EdDSA.Err Unit)
+    (hr : r = .ok () ∨ r = .error .sOutOfRange ∨ r = .error .hash ∨ r = .error .verifyFailed) :
+    (verifyToGo fm r = none ↔ r = .ok ()) ∧
+      (verifyToGo fm r = some "ErrSOutOfRange" ↔ r = .error .sOutOfRange) ∧
+      (verifyToGo fm r = some hashErrMsg ↔ r = .error .hash) ∧
+      (verifyToGo fm r = some fm ↔ r = .error .verifyFailed) := by
+  have h3 : ("ErrSOutOfRange" : String) ≠ hashErrMsg := by decide
+  rcases hr with rfl | rfl | rfl | rfl <;>
+    simp [verifyToGo, h1, h2, h3, h1.symm, h2.symm, h3.symm]
+
+theorem babyjub_PublicKey_VerifyPoseidon_iff (pk : Int × Int) (msg : Int) (sig : (Int × Int) × Int) :
+    (babyjub_PublicKey_VerifyPoseidon pk msg sig = none ↔
+        verify K Inst.hPoseidon pk msg (toSig sig) = .ok ()) ∧
+      (babyjub_PublicKey_VerifyPoseidon pk msg sig = some "ErrSOutOfRange" ↔
+        verify K Inst.hPoseidon pk msg (toSig sig) = .error .sOutOfRange) ∧
+      (babyjub_PublicKey_VerifyPoseidon pk msg sig = some hashErrMsg ↔
+        verify K Inst.hPoseidon pk msg (toSig sig) = .error .hash) ∧
+      (babyjub_PublicKey_VerifyPoseidon pk msg sig = some "ErrVerifyPoseidonFailed" ↔
+        verify K Inst.hPoseidon pk msg (toSig sig) = .error .verifyFailed) := by
+  rw [babyjub_PublicKey_VerifyPoseidon_eq]
+  exact verifyToGo_iff _ (by decide) (by decide) _ (verify_cases _ _ _ _)
+
+theorem babyjub_PublicKey_VerifyMimc7_iff (pk : Int × Int) (msg : Int) (sig : (Int × Int) × Int) :
+    (babyjub_PublicKey_VerifyMimc7 pk msg sig = none ↔
+        verify K Inst.hMimc7 pk msg (toSig sig) = .ok ()) ∧
+      (babyjub_PublicKey_VerifyMimc7 pk msg sig = some "ErrSOutOfRange" ↔
+        verify K Inst.hMimc7 pk msg (toSig sig) = .error .sOutOfRange) ∧
+      (babyjub_PublicKey_VerifyMimc7 pk msg sig = some hashErrMsg ↔
+        verify K Inst.hMimc7 pk msg (toSig sig) = .error .hash) ∧
+      (babyjub_PublicKey_VerifyMimc7 pk msg sig = some "ErrVerifyMimc7Failed" ↔
+        verify K Inst.hMimc7 pk msg (toSig sig) = .error .verifyFailed) := by
+  rw [babyjub_PublicKey_VerifyMimc7_eq]
+  exact verifyToGo_iff _ (by decide) (by decide) _ (verify_cases _ _ _ _)
+
+/-- `s.Decompress(buf)` / `sComp.Decompress()` succeed exactly when the model does, with the same
+signature; the error is the `Point.Decompress` error of the first 32 bytes -/
+theorem sigOfExcept_ok_iff (r : Except Model.EdDSA.Err Sig) (sig : (Int × Int) × Int) :
+    sigOfExcept r = (sig, none) ↔ r = .ok (toSig sig) := by
+  rcases r with (_ | _ | _ | e | _ | _ | _ | _ | _) | s <;> simp [sigOfExcept]
+  constructor
+  · rintro rfl; rfl
+  · rintro rfl; rfl
+
+/-- the model's `sigDecompress` fails only with a point error -/
+theorem sigDecompress_error (sqrtFn : Nat → Option Nat) (b : Bytes) (e : Model.EdDSA.Err)
+    (h : sigDecompress K sqrtFn b = .error e) : ∃ pe, e = .point pe := by
+  unfold sigDecompress at h
+  split at h
+  · exact ⟨_, (Except.error.inj h).symm⟩
+  · cases h
+
+/-! ## the properties of the model, transported to ANY generated (hash, signer, verifier) triple that
+satisfies the bridge equations — instantiated at Poseidon and at MiMC7 below, and quoted with the
+generated names in I3.Props.C02Gen / C03Gen / C14Gen -/
+
+open I3.Spec I3.Spec.BJJ I3.Lemmas.CurveBridge I3.Lemmas.EdDSA
+
+theorem toSig_mk (r8 : ℤ × ℤ) (S : ℤ) : toSig (r8, S) = ⟨r8, S⟩ := rfl
+
+/-- what the bridge lemmas establish about a generated triple: `H` the model hash, `gh` the generated
+hash on a vector, `gs` / `gv` the generated signer / verifier, `fm` the Go name of the verification
+failure.  (The functions are INDICES of a `Prop`: nothing has to be unfolded to use it.) -/
+structure IsEdDSA (H : List ℤ → Option ℕ) (gh : List ℤ → ℤ × Option String)
+    (gs : Bytes → ℤ → ((ℤ × ℤ) × ℤ) × Option String)
+    (gv : ℤ × ℤ → ℤ → (ℤ × ℤ) × ℤ → Option String) (fm : String) : Prop where
+  gh_eq : ∀ a b c d e : ℤ, gh [a, b, c, d, e] = hashToGo (H [a, b, c, d, e])
+  gs_eq : ∀ k msg, gs k msg = signToGo (sign K Inst.blake H k msg)
+  gv_eq : ∀ pk msg sig, gv pk msg sig = verifyToGo fm (verify K H pk msg (toSig sig))
+  fm_ne_range : fm ≠ "ErrSOutOfRange"
+  fm_ne_hash : fm ≠ hashErrMsg
+  total : HashTotal H
+  reject : ∀ v : List ℤ, (∃ x ∈ v, x < 0 ∨ (I3.q : ℤ) ≤ x) → H v = none
+
+theorem isEdDSA_poseidon : IsEdDSA Inst.hPoseidon poseidon_Hash babyjub_PrivateKey_SignPoseidon
+    babyjub_PublicKey_VerifyPoseidon "ErrVerifyPoseidonFailed" where
+  gh_eq := poseidon_Hash_five
+  gs_eq := babyjub_PrivateKey_SignPoseidon_eq
+  gv_eq := babyjub_PublicKey_VerifyPoseidon_eq
+  fm_ne_range := by decide
+  fm_ne_hash := by decide
+  total := hPoseidon_total
+  reject := hPoseidon_none
+
+theorem isEdDSA_mimc7 : IsEdDSA Inst.hMimc7 (fun v => mimc7_Hash v none) babyjub_PrivateKey_SignMimc7
+    babyjub_PublicKey_VerifyMimc7 "ErrVerifyMimc7Failed" where
+  gh_eq := fun _ _ _ _ _ => mimc7_Hash_eq_hashToGo _
+  gs_eq := babyjub_PrivateKey_SignMimc7_eq
+  gv_eq := babyjub_PublicKey_VerifyMimc7_eq
+  fm_ne_range := by decide
+  fm_ne_hash := by decide
+  total := hMimc7_total
+  reject := hMimc7_none
+
+namespace IsEdDSA
+
+variable {H : List ℤ → Option ℕ} {gh : List ℤ → ℤ × Option String}
+  {gs : Bytes → ℤ → ((ℤ × ℤ) × ℤ) × Option String}
+  {gv : ℤ × ℤ → ℤ → (ℤ × ℤ) × ℤ → Option String} {fm : String} (B : IsEdDSA H gh gs gv fm)
+include B
+
+/-! ### reading the generated results -/
+
+theorem gv_iff (pk : ℤ × ℤ) (msg : ℤ) (sig : (ℤ × ℤ) × ℤ) :
+    (gv pk msg sig = none ↔ verify K H pk msg (toSig sig) = .ok ()) ∧
+      (gv pk msg sig = some "ErrSOutOfRange" ↔ verify K H pk msg (toSig sig) = .error .sOutOfRange) ∧
+      (gv pk msg sig = some hashErrMsg ↔ verify K H pk msg (toSig sig) = .error .hash) ∧
+      (gv pk msg sig = some fm ↔ verify K H pk msg (toSig sig) = .error .verifyFailed) := by
+  rw [B.gv_eq]
+  exact verifyToGo_iff _ B.fm_ne_range B.fm_ne_hash _ (verify_cases _ _ _ _)
+
+theorem gs_ok_iff (k : Bytes) (msg : ℤ) (sig : (ℤ × ℤ) × ℤ) :
+    gs k msg = (sig, none) ↔ sign K Inst.blake H k msg = .ok (toSig sig) := by
+  rw [B.gs_eq, signToGo_ok_iff]
+
+theorem gs_error_iff (k : Bytes) (msg : ℤ) :
+    gs k msg = (default, some hashErrMsg) ↔ sign K Inst.blake H k msg = .error .hash := by
+  rw [B.gs_eq, signToGo_error_iff]
+  exact ⟨fun ⟨e, he⟩ => by rw [he, sign_error_hash _ _ _ _ e he], fun h => ⟨_, h⟩⟩
+
+theorem gh_some_iff (a b c d e : ℤ) (hm : ℕ) :
+    gh [a, b, c, d, e] = ((hm : ℤ), none) ↔ H [a, b, c, d, e] = some hm := by
+  rw [B.gh_eq, hashToGo_some_iff]
+
+theorem gh_none_iff (a b c d e : ℤ) :
+    gh [a, b, c, d, e] = (0, some hashErrMsg) ↔ H [a, b, c, d, e] = none := by
+  rw [B.gh_eq, hashToGo_error_iff]
+
+/-- the generated hash returns either `(hm, nil)` with `hm ≥ 0` or `(nil, "inputs values not inside
+Finite Field")` -/
+theorem gh_cases (a b c d e : ℤ) :
+    (∃ hm : ℕ, gh [a, b, c, d, e] = ((hm : ℤ), none)) ∨ gh [a, b, c, d, e] = (0, some hashErrMsg) := by
+  rw [B.gh_eq]
+  cases H [a, b, c, d, e] with
+  | none => exact Or.inr rfl
+  | some hm => exact Or.inl ⟨hm, rfl⟩
+
+/-- on curve points in canonical coordinates and a message in the field the generated hash succeeds -/
+theorem gh_defined (A R8 : curve.Point) {msg : ℤ} (h0 : 0 ≤ msg) (hq : msg < (I3.q : ℤ)) :
+    ∃ hm : ℕ, gh [(coords R8).1, (coords R8).2, (coords A).1, (coords A).2, msg] =
+      ((hm : ℤ), none) := by
+  obtain ⟨hm, h⟩ := hash_defined B.total A R8 h0 hq
+  exact ⟨hm, (B.gh_some_iff _ _ _ _ _ hm).2 h⟩
+
+/-- as soon as one of the five inputs is outside `[0, q)` the generated hash returns its error -/
+theorem gh_reject (a b c d e : ℤ) (h : ∃ x ∈ [a, b, c, d, e], x < 0 ∨ (I3.q : ℤ) ≤ x) :
+    gh [a, b, c, d, e] = (0, some hashErrMsg) :=
+  (B.gh_none_iff _ _ _ _ _).2 (B.reject _ h)
+
+/-! ### C14: the range check on `S` -/
+
+theorem verify_S_out_of_range (a r8 : ℤ × ℤ) (msg S : ℤ) (h : S < 0 ∨ (I3.l : ℤ) ≤ S) :
+    gv a msg (r8, S) = some "ErrSOutOfRange" :=
+  (B.gv_iff a msg (r8, S)).2.1.2 (Props.C14.verify_S_out_of_range H a r8 msg S h)
+
+theorem verify_S_out_of_range_iff (a r8 : ℤ × ℤ) (msg S : ℤ) :
+    gv a msg (r8, S) = some "ErrSOutOfRange" ↔ (S < 0 ∨ (I3.l : ℤ) ≤ S) :=
+  (B.gv_iff a msg (r8, S)).2.1.trans (Props.C14.verify_S_out_of_range_iff H a r8 msg S)
+
+theorem verify_ok_S_range (a r8 : ℤ × ℤ) (msg S : ℤ) (h : gv a msg (r8, S) = none) :
+    0 ≤ S ∧ S < (I3.l : ℤ) :=
+  Props.C14.verify_ok_S_range H a r8 msg S ((B.gv_iff a msg (r8, S)).1.1 h)
+
+theorem verify_S_unique (a r8 : ℤ × ℤ) (msg S S' : ℤ) (h : gv a msg (r8, S) = none)
+    (h' : gv a msg (r8, S') = none) : S = S' :=
+  Props.C14.verify_S_unique H a r8 msg S S' ((B.gv_iff a msg (r8, S)).1.1 h)
+    ((B.gv_iff a msg (r8, S')).1.1 h')
+
+theorem verify_S_shift_rejected (a r8 : ℤ × ℤ) (msg S k : ℤ) (hS0 : 0 ≤ S) (hSl : S < (I3.l : ℤ))
+    (hk : k ≠ 0) : gv a msg (r8, S + k * (I3.l : ℤ)) = some "ErrSOutOfRange" :=
+  (B.gv_iff a msg (r8, S + k * (I3.l : ℤ))).2.1.2
+    (Props.C14.verify_S_shift_rejected H a r8 msg S k hS0 hSl hk)
+
+/-! ### C03: acceptance is the group equation -/
+
+theorem verify_iff (A R8 : curve.Point) (msg S : ℤ) (hm : ℕ) (hS0 : 0 ≤ S) (hSl : S < (I3.l : ℤ))
+    (hH : gh [(coords R8).1, (coords R8).2, (coords A).1, (coords A).2, msg] = ((hm : ℤ), none)) :
+    gv (coords A) msg (coords R8, S) = none ↔ S.toNat • B8 = R8 + (8 * hm) • A :=
+  (B.gv_iff _ msg (coords R8, S)).1.trans
+    (Props.C03.verify_iff H A R8 msg S hm hS0 hSl ((B.gh_some_iff _ _ _ _ _ hm).1 hH))
+
+theorem verify_reject (A R8 : curve.Point) (msg S : ℤ) (hm : ℕ) (hS0 : 0 ≤ S) (hSl : S < (I3.l : ℤ))
+    (hH : gh [(coords R8).1, (coords R8).2, (coords A).1, (coords A).2, msg] = ((hm : ℤ), none))
+    (hne : S.toNat • B8 ≠ R8 + (8 * hm) • A) : gv (coords A) msg (coords R8, S) = some fm :=
+  (B.gv_iff _ msg (coords R8, S)).2.2.2.2
+    (Props.C03.verify_reject H A R8 msg S hm hS0 hSl ((B.gh_some_iff _ _ _ _ _ hm).1 hH) hne)
+
+theorem verify_hash_error (a r8 : ℤ × ℤ) (msg S : ℤ) (hS0 : 0 ≤ S) (hSl : S < (I3.l : ℤ))
+    (hH : gh [r8.1, r8.2, a.1, a.2, msg] = (0, some hashErrMsg)) :
+    gv a msg (r8, S) = some hashErrMsg :=
+  (B.gv_iff a msg (r8, S)).2.2.1.2
+    (Props.C03.verify_hash_error H a r8 msg S hS0 hSl ((B.gh_none_iff _ _ _ _ _).1 hH))
+
+/-- the complete decision: `nil` iff `0 ≤ S < l`, the hash is defined and the equation holds -/
+theorem verify_none_iff (A R8 : curve.Point) (msg S : ℤ) :
+    gv (coords A) msg (coords R8, S) = none ↔
+      0 ≤ S ∧ S < (I3.l : ℤ) ∧ ∃ hm : ℕ,
+        gh [(coords R8).1, (coords R8).2, (coords A).1, (coords A).2, msg] = ((hm : ℤ), none) ∧
+        S.toNat • B8 = R8 + (8 * hm) • A := by
+  constructor
+  · intro h
+    have hv := (B.gv_iff _ msg (coords R8, S)).1.1 h
+    obtain ⟨h0, hl, hm, hH, -⟩ := verify_ok_elim hv
+    have hg := (B.gh_some_iff _ _ _ _ _ hm).2 hH
+    exact ⟨h0, hl, hm, hg, (B.verify_iff A R8 msg S hm h0 hl hg).1 h⟩
+  · rintro ⟨h0, hl, hm, hg, he⟩
+    exact (B.verify_iff A R8 msg S hm h0 hl hg).2 he
+
+/-- … and otherwise exactly one of the three errors, in this order -/
+theorem verify_cases' (A R8 : curve.Point) (msg S : ℤ) :
+    ((S < 0 ∨ (I3.l : ℤ) ≤ S) → gv (coords A) msg (coords R8, S) = some "ErrSOutOfRange") ∧
+      (0 ≤ S → S < (I3.l : ℤ) →
+        gh [(coords R8).1, (coords R8).2, (coords A).1, (coords A).2, msg] = (0, some hashErrMsg) →
+        gv (coords A) msg (coords R8, S) = some hashErrMsg) ∧
+      (0 ≤ S → S < (I3.l : ℤ) → ∀ hm : ℕ,
+        gh [(coords R8).1, (coords R8).2, (coords A).1, (coords A).2, msg] = ((hm : ℤ), none) →
+        S.toNat • B8 ≠ R8 + (8 * hm) • A → gv (coords A) msg (coords R8, S) = some fm) :=
+  ⟨B.verify_S_out_of_range _ _ msg S, fun h0 hl hH => B.verify_hash_error _ _ msg S h0 hl hH,
+    fun h0 hl hm hH hne => B.verify_reject A R8 msg S hm h0 hl hH hne⟩
+
+theorem verify_iff_total (A R8 : curve.Point) (msg S : ℤ) (hm0 : 0 ≤ msg) (hmq : msg < (I3.q : ℤ))
+    (hS0 : 0 ≤ S) (hSl : S < (I3.l : ℤ)) :
+    ∃ hm : ℕ, gh [(coords R8).1, (coords R8).2, (coords A).1, (coords A).2, msg] = ((hm : ℤ), none) ∧
+      (gv (coords A) msg (coords R8, S) = none ↔ S.toNat • B8 = R8 + (8 * hm) • A) ∧
+      (S.toNat • B8 ≠ R8 + (8 * hm) • A → gv (coords A) msg (coords R8, S) = some fm) := by
+  obtain ⟨hm, hH⟩ := B.gh_defined A R8 hm0 hmq
+  exact ⟨hm, hH, B.verify_iff A R8 msg S hm hS0 hSl hH, B.verify_reject A R8 msg S hm hS0 hSl hH⟩
+
+theorem verify_msg_out_of_field (a r8 : ℤ × ℤ) (msg S : ℤ) (hS0 : 0 ≤ S) (hSl : S < (I3.l : ℤ))
+    (hmsg : msg < 0 ∨ (I3.q : ℤ) ≤ msg) : gv a msg (r8, S) = some hashErrMsg :=
+  B.verify_hash_error a r8 msg S hS0 hSl (B.gh_reject _ _ _ _ _ ⟨msg, by simp, hmsg⟩)
+
+theorem verify_coord_out_of_field (a r8 : ℤ × ℤ) (msg S : ℤ) (hS0 : 0 ≤ S) (hSl : S < (I3.l : ℤ))
+    (hc : ∃ c ∈ [r8.1, r8.2, a.1, a.2], c < 0 ∨ (I3.q : ℤ) ≤ c) :
+    gv a msg (r8, S) = some hashErrMsg := by
+  obtain ⟨c, hc, hbad⟩ := hc
+  refine B.verify_hash_error a r8 msg S hS0 hSl (B.gh_reject _ _ _ _ _ ⟨c, ?_, hbad⟩)
+  simp only [List.mem_cons, List.not_mem_nil, or_false] at hc ⊢
+  tauto
+
+theorem verify_other_S_rejected (A R8 : curve.Point) (msg S S' : ℤ) (hS0' : 0 ≤ S')
+    (hSl' : S' < (I3.l : ℤ)) (hne : S' ≠ S) (hok : gv (coords A) msg (coords R8, S) = none) :
+    gv (coords A) msg (coords R8, S') = some fm := by
+  have hv := (B.gv_iff _ msg (coords R8, S)).1.1 hok
+  obtain ⟨h0, hl, -⟩ := verify_ok_elim hv
+  exact (B.gv_iff _ msg (coords R8, S')).2.2.2.2
+    (Props.C03.verify_other_S_rejected H A R8 msg S S' h0 hl hS0' hSl' hne hv)
+
+theorem verify_other_R8_iff (A R8 R8' : curve.Point) (msg S : ℤ) (hm hm' : ℕ)
+    (hH : gh [(coords R8).1, (coords R8).2, (coords A).1, (coords A).2, msg] = ((hm : ℤ), none))
+    (hH' : gh [(coords R8').1, (coords R8').2, (coords A).1, (coords A).2, msg] = ((hm' : ℤ), none))
+    (hok : gv (coords A) msg (coords R8, S) = none) :
+    gv (coords A) msg (coords R8', S) = none ↔ R8' + (8 * hm') • A = R8 + (8 * hm) • A := by
+  have hv := (B.gv_iff _ msg (coords R8, S)).1.1 hok
+  obtain ⟨h0, hl, -⟩ := verify_ok_elim hv
+  exact (B.gv_iff _ msg (coords R8', S)).1.trans
+    (Props.C03.verify_other_R8_iff H A R8 R8' msg S hm hm' h0 hl
+      ((B.gh_some_iff _ _ _ _ _ hm).1 hH) ((B.gh_some_iff _ _ _ _ _ hm').1 hH') hv)
+
+theorem verify_altered_key_iff (A A' R8 : curve.Point) (msg S : ℤ) (hm hm' : ℕ)
+    (hH : gh [(coords R8).1, (coords R8).2, (coords A).1, (coords A).2, msg] = ((hm : ℤ), none))
+    (hH' : gh [(coords R8).1, (coords R8).2, (coords A').1, (coords A').2, msg] = ((hm' : ℤ), none))
+    (hok : gv (coords A) msg (coords R8, S) = none) :
+    gv (coords A') msg (coords R8, S) = none ↔ (8 * hm') • A' = (8 * hm) • A := by
+  have hv := (B.gv_iff _ msg (coords R8, S)).1.1 hok
+  obtain ⟨h0, hl, -⟩ := verify_ok_elim hv
+  exact (B.gv_iff _ msg (coords R8, S)).1.trans
+    (Props.C03.verify_altered_key_iff H A A' R8 msg S hm hm' h0 hl
+      ((B.gh_some_iff _ _ _ _ _ hm).1 hH) ((B.gh_some_iff _ _ _ _ _ hm').1 hH') hv)
+
+theorem verify_altered_msg_iff (A R8 : curve.Point) (msg msg' S : ℤ) (hm hm' : ℕ)
+    (hH : gh [(coords R8).1, (coords R8).2, (coords A).1, (coords A).2, msg] = ((hm : ℤ), none))
+    (hH' : gh [(coords R8).1, (coords R8).2, (coords A).1, (coords A).2, msg'] = ((hm' : ℤ), none))
+    (hok : gv (coords A) msg (coords R8, S) = none) :
+    gv (coords A) msg' (coords R8, S) = none ↔ (8 * hm') • A = (8 * hm) • A := by
+  have hv := (B.gv_iff _ msg (coords R8, S)).1.1 hok
+  obtain ⟨h0, hl, -⟩ := verify_ok_elim hv
+  exact (B.gv_iff _ msg' (coords R8, S)).1.trans
+    (Props.C03.verify_altered_msg_iff H A R8 msg msg' S hm hm' h0 hl
+      ((B.gh_some_iff _ _ _ _ _ hm).1 hH) ((B.gh_some_iff _ _ _ _ _ hm').1 hH') hv)
+
+theorem verify_altered_msg_iff_modEq (s : ℕ) (R8 : curve.Point) (msg msg' S : ℤ) (hm hm' : ℕ)
+    (hA : s • B8 ≠ 0)
+    (hH : gh [(coords R8).1, (coords R8).2, (coords (s • B8)).1, (coords (s • B8)).2, msg] =
+      ((hm : ℤ), none))
+    (hH' : gh [(coords R8).1, (coords R8).2, (coords (s • B8)).1, (coords (s • B8)).2, msg'] =
+      ((hm' : ℤ), none))
+    (hok : gv (coords (s • B8)) msg (coords R8, S) = none) :
+    gv (coords (s • B8)) msg' (coords R8, S) = none ↔ hm' ≡ hm [MOD I3.l] := by
+  rw [B.verify_altered_msg_iff (s • B8) R8 msg msg' S hm hm' hH hH' hok]
+  exact eight_mul_nsmul_eq_iff s hA hm' hm
+
+/-! ### C02: signing -/
+
+/-- signing returns `(sig, nil)` or `(nil, "inputs values not inside Finite Field")` -/
+theorem sign_cases (k : Bytes) (msg : ℤ) :
+    (∃ sig, gs k msg = (sig, none)) ∨ gs k msg = (default, some hashErrMsg) := by
+  rw [B.gs_eq]
+  cases sign K Inst.blake H k msg with
+  | error e => exact Or.inr rfl
+  | ok sig => exact Or.inl ⟨_, rfl⟩
+
+theorem sign_ok (k : Bytes) (msg : ℤ) (hm0 : 0 ≤ msg) (hmq : msg < (I3.q : ℤ)) :
+    ∃ sig, gs k msg = (sig, none) := by
+  obtain ⟨sig, h⟩ := Props.C02.sign_ok Inst.blake H B.total k msg hm0 hmq
+  exact ⟨ofSig sig, (B.gs_ok_iff k msg _).2 h⟩
+
+theorem sign_msg_out_of_field (k : Bytes) (msg : ℤ) (hmsg : msg < 0 ∨ (I3.q : ℤ) ≤ msg) :
+    gs k msg = (default, some hashErrMsg) :=
+  (B.gs_error_iff k msg).2 (sign_none _ _ k msg _ _ rfl rfl (B.reject _ ⟨msg, by simp, hmsg⟩))
+
+theorem sign_spec (k : Bytes) (msg : ℤ) (hm0 : 0 ≤ msg) (hmq : msg < (I3.q : ℤ)) (r s : ℕ)
+    (hr : r = leToNat (Inst.blake ((Inst.blake k).drop 32 ++ natToLE 32 msg.toNat)) % I3.l)
+    (hs : (s : ℤ) = babyjub_SkToBigInt k) :
+    ∃ hm : ℕ, gh [(coords (r • B8)).1, (coords (r • B8)).2, (coords (s • B8)).1, (coords (s • B8)).2,
+        msg] = ((hm : ℤ), none) ∧
+      gs k msg = ((coords (r • B8), ((r : ℤ) + (hm : ℤ) * (8 * (s : ℤ))) % (I3.l : ℤ)), none) ∧
+      0 ≤ ((r : ℤ) + (hm : ℤ) * (8 * (s : ℤ))) % (I3.l : ℤ) ∧
+      ((r : ℤ) + (hm : ℤ) * (8 * (s : ℤ))) % (I3.l : ℤ) < (I3.l : ℤ) ∧
+      babyjub_Point_InCurve (coords (r • B8)) = true := by
+  have hs' : s = skToBigInt Inst.blake k := by
+    rw [babyjub_SkToBigInt_eq] at hs; exact_mod_cast hs
+  obtain ⟨hm, hH, hsig, h0, hl, hc⟩ :=
+    Props.C02.sign_spec Inst.blake H B.total k msg hm0 hmq r s hr hs'
+  exact ⟨hm, (B.gh_some_iff _ _ _ _ _ hm).2 hH, (B.gs_ok_iff k msg _).2 hsig, h0, hl,
+    by rw [babyjub_Point_InCurve_eq]; exact hc⟩
+
+theorem sign_range (k : Bytes) (msg : ℤ) (sig : (ℤ × ℤ) × ℤ) (h : gs k msg = (sig, none)) :
+    0 ≤ sig.2 ∧ sig.2 < (I3.l : ℤ) ∧ babyjub_Point_InCurve sig.1 = true ∧
+      ∃ R8 : curve.Point, sig.1 = coords R8 ∧ I3.l • R8 = 0 := by
+  have := Props.C02.sign_range Inst.blake H k msg (toSig sig) ((B.gs_ok_iff k msg sig).1 h)
+  rw [babyjub_Point_InCurve_eq]
+  exact this
+
+theorem sign_verify (k : Bytes) (msg : ℤ) (sig : (ℤ × ℤ) × ℤ) (h : gs k msg = (sig, none)) :
+    gv (babyjub_PrivateKey_Public k) msg sig = none := by
+  rw [babyjub_PrivateKey_Public_eq]
+  exact (B.gv_iff _ msg sig).1.2
+    (Props.C02.sign_verify Inst.blake H k msg (toSig sig) ((B.gs_ok_iff k msg sig).1 h))
+
+theorem sign_ok_verify (k : Bytes) (msg : ℤ) (hm0 : 0 ≤ msg) (hmq : msg < (I3.q : ℤ)) :
+    ∃ sig, gs k msg = (sig, none) ∧ gv (babyjub_PrivateKey_Public k) msg sig = none := by
+  obtain ⟨sig, h⟩ := B.sign_ok k msg hm0 hmq
+  exact ⟨sig, h, B.sign_verify k msg sig h⟩
+
+/-- signature and public key survive the generated codecs unchanged, and the decoded signature
+verifies under the decoded key -/
+theorem sign_verify_roundtrip (k : Bytes) (msg : ℤ) (sig : (ℤ × ℤ) × ℤ) (h : gs k msg = (sig, none)) :
+    babyjub_SignatureComp_Decompress (babyjub_Signature_Compress sig) = (sig, none) ∧
+      babyjub_PublicKeyComp_Decompress (babyjub_PublicKey_Compress (babyjub_PrivateKey_Public k)) =
+        (babyjub_PrivateKey_Public k, none) ∧
+      gv (babyjub_PrivateKey_Public k) msg sig = none := by
+  have hm := (B.gs_ok_iff k msg sig).1 h
+  obtain ⟨sig', pk', h1, h2, e1, e2, -⟩ :=
+    Props.C02.sign_verify_roundtrip Inst.sqrtQ Props.C06.sqrtQ_spec Inst.blake H k msg (toSig sig) hm
+  subst e1 e2
+  refine ⟨?_, ?_, B.sign_verify k msg sig h⟩
+  · rw [babyjub_Signature_Compress_eq,
+      babyjub_SignatureComp_Decompress_eq _ (Props.C15.sigCompress_length _ _), h1]
+    rfl
+  · have hl : (babyjub_PublicKey_Compress (babyjub_PrivateKey_Public k)).length = 32 := by
+      rw [babyjub_PublicKey_Compress_eq]; exact Props.C15.compress_length _ _
+    rw [babyjub_PublicKeyComp_Decompress_eq _ hl, babyjub_PublicKey_Compress_eq,
+      babyjub_PrivateKey_Public_eq, h2]
+    rfl
+
+end IsEdDSA
 
 end I3.GoBridge
